@@ -14,7 +14,7 @@ from common import Report, lake_build, audit_axioms, forbidden_tokens, lean_clos
 def deepen(rep, mod, a, tier, drv):
     """Deepened failing-input search. Triggered (quick tier only) when no concrete failing input has been found yet and either (a) a proof
     obligation / translation / correspondence broke, or (b) the source files the property depends on differ from the pinned tree
-    (harness/fingerprint.py; never an alarm by itself). Then: further passes of the quick generator with fresh seeds (about 3 minutes),
+    (harness/fingerprint.py; never an alarm by itself). Then: further passes of the quick generator with fresh seeds (about 2 minutes),
     followed by a prefix of the thorough generator with every stage time-boxed. On the unchanged tree nothing is triggered."""
     if tier != "quick" or rep.violations or rep.replay is not None or os.environ.get("VERIF_NO_DEEPEN"):
         return
@@ -24,7 +24,8 @@ def deepen(rep, mod, a, tier, drv):
         return
     rep.cov["deepened_search"] = {"source_files_changed": changed, "broken_ties": [b["broken"] for b in rep.broken][:10], "passes": []}
     t0 = time.time()
-    budget = float(os.environ.get("VERIF_DEEPEN_S", "180"))
+    budget = float(os.environ.get("VERIF_DEEPEN_S", "120"))
+    rep.global_deadline = t0 + float(os.environ.get("VERIF_DEEPEN_TOTAL_S", "300"))      # the whole deepened search is bounded
     j = 0
     while not rep.violations and time.time() - t0 < budget and j < 6:
         j += 1
@@ -32,10 +33,11 @@ def deepen(rep, mod, a, tier, drv):
         mod.run(rep, "quick", random.Random((a.seed + 7919 * j) * 1000003 + 17), drv)
         rep.cov["deepened_search"]["passes"].append({"generator": "quick", "seed_offset": 7919 * j, "elapsed_s": round(time.time() - t0, 1)})
     if not rep.violations:
-        rep.stage_deadline = float(os.environ.get("VERIF_DEEPEN_STAGE_S", "100"))
+        rep.stage_deadline = float(os.environ.get("VERIF_DEEPEN_STAGE_S", "75"))
         mod.run(rep, "thorough", random.Random((a.seed + 104729) * 1000003 + 17), drv)
         rep.cov["deepened_search"]["passes"].append({"generator": "thorough (every stage time-boxed)", "elapsed_s": round(time.time() - t0, 1)})
     rep.stage_deadline = None
+    rep.global_deadline = None
 
 
 def main():
